@@ -2,7 +2,7 @@
    warm_start/cold_start/start/stop, UPD-SOS backup/clear, CFG-ESFLA set, MGA-INI-TIME_UTC set_datetime and the enable/disable
    bit of a CFG-GNSS flags item, translated from the source on this run (HelperKernels.v) = model/Helpers.v, for every field
    list and every argument. *)
-From Coq Require Import String Lia.
+From Coq Require Import String Lia Permutation.
 From Ubx Require Import Fields Base Checksum Frame ParserUbx CfgKeys Request Helpers PySem.
 From UbxGen Require Import HelperKernels.
 Open Scope Z_scope.
@@ -20,6 +20,77 @@ Proof.
   rewrite IH. reflexivity.
 Qed.
 
+(* assignments to DISTINCT plain fields commute: a chain of them is determined by the set of (name, value) pairs, so the
+   bridges do not depend on the order in which the code makes them *)
+Lemma setf_comm fs a x b y : a <> b -> setf (setf fs a x) b y = setf (setf fs b y) a x.
+Proof.
+  intros Hab. induction fs as [|[[k t] v] r IH]; [reflexivity|].
+  cbn [setf]. destruct (String.eqb k a) eqn:Ea; destruct (String.eqb k b) eqn:Eb; cbn [setf]; rewrite ?Ea, ?Eb; try reflexivity.
+  - apply String.eqb_eq in Ea. apply String.eqb_eq in Eb. congruence.
+  - rewrite IH. reflexivity.
+Qed.
+Fixpoint apply_sets (fs : fields) (l : list (string * Z)) : fields :=
+  match l with [] => fs | (n, z) :: t => apply_sets (setf fs n (VInt z)) t end.
+Lemma apply_sets_perm l1 l2 : Permutation l1 l2 -> NoDup (map fst l1) -> forall fs, apply_sets fs l1 = apply_sets fs l2.
+Proof.
+  induction 1 as [|[n z] l l' Hp IH|[n z] [m y] l|l l' l'' H1 IH1 H2 IH2]; intros Hn fs.
+  - reflexivity.
+  - cbn [apply_sets]. apply IH. inversion Hn; assumption.
+  - cbn [apply_sets]. rewrite setf_comm; [reflexivity|]. cbn [map fst] in Hn. inversion Hn as [|? ? Hin _]. intros ->. apply Hin. left. reflexivity.
+  - rewrite IH1 by exact Hn. apply IH2. eapply Permutation_NoDup; [|exact Hn]. apply Permutation_map. exact H1.
+Qed.
+Lemma NoDup_pairs (l : list (string * Z)) : NoDup (map fst l) -> NoDup l.
+Proof.
+  induction l as [|[n z] t IH]; intros H; [constructor|]. cbn [map fst] in H. inversion H as [|? ? Hin Ht]. constructor; [|exact (IH Ht)].
+  intros Hi. apply Hin. change n with (fst (n, z)). apply in_map. exact Hi.
+Qed.
+Fixpoint nodupb (l : list string) : bool :=
+  match l with [] => true | x :: t => negb (existsb (String.eqb x) t) && nodupb t end.
+Lemma nodupb_ok l : nodupb l = true -> NoDup l.
+Proof.
+  induction l as [|x t IH]; intros H; [constructor|]. cbn [nodupb] in H. apply andb_prop in H. destruct H as [H1 H2].
+  constructor; [|exact (IH H2)]. intros Hin. apply negb_true_iff in H1. assert (existsb (String.eqb x) t = true) as Hx.
+  { apply existsb_exists. exists x. split; [exact Hin|apply String.eqb_refl]. } congruence.
+Qed.
+Lemma apply_sets_eq fs l1 l2 :
+  nodupb (map fst l1) = true -> nodupb (map fst l2) = true -> incl l1 l2 -> (length l2 <= length l1)%nat ->
+  apply_sets fs l1 = apply_sets fs l2.
+Proof.
+  intros H1 H2 Hi Hl. apply apply_sets_perm; [|apply nodupb_ok; exact H1].
+  apply NoDup_Permutation_bis; [apply NoDup_pairs, nodupb_ok; exact H1|exact Hl|exact Hi].
+Qed.
+(* nested setf on integer values -> apply_sets fs [pairs in application order] *)
+Ltac reify_sets t :=
+  lazymatch t with
+  | setf ?t' ?n (VInt ?z) => let r := reify_sets t' in constr:(List.app r [(n, z)])
+  | _ => constr:(@nil (string * Z))
+  end.
+Ltac base_of t := lazymatch t with setf ?t' _ _ => base_of t' | _ => t end.
+Ltac sets_norm :=
+  repeat match goal with
+  | |- context [fmap (setf ?a ?n (VInt ?z))] =>
+      let t := constr:(setf a n (VInt z)) in let b := base_of t in let l := reify_sets t in
+      let l' := eval cbn [List.app] in l in change (fmap t) with (fmap (apply_sets b l'))
+  end.
+Ltac sets_eq :=
+  sets_norm;
+  lazymatch goal with
+  | |- ?lhs = ?rhs =>
+      lazymatch lhs with
+      | context [apply_sets ?b ?l1] =>
+          lazymatch rhs with
+          | context [apply_sets b ?l2] =>
+              replace (apply_sets b l1) with (apply_sets b l2);
+              [ reflexivity
+              | symmetry; apply apply_sets_eq;
+                [ reflexivity | reflexivity
+                | let p := fresh "p" in let Hp := fresh "Hp" in
+                  intros p Hp; cbn [In] in Hp |- *; repeat (destruct Hp as [Hp|Hp]; [subst p; auto 20|]); contradiction
+                | cbn [length]; lia ] ]
+          end
+      end
+  end.
+
 Ltac py_unfold :=
   cbv beta iota zeta delta [s_seq s_call_assign s_call s_call_assign2 s_call_return s_if s_skip s_try s_return s_assign
     s_assert s_break s_continue s_update s_update_arg s_raise res_call find_handler].
@@ -30,7 +101,7 @@ Arguments Z.lor : simpl never. Arguments Z.land : simpl never.
 
 (* call-by-need evaluation: every statement mentions the locals twice, so call-by-name (cbn) doubles the term per statement *)
 Ltac helper := intros; unfold fobj; lazy -[attr_set_existing setf fmap Z.opp Z.leb Z.quot Z.div Z.lor Z.land Z.lnot];
-  rewrite ?fld_set_setf; reflexivity.
+  rewrite ?fld_set_setf; first [reflexivity | sets_eq].
 
 Section Br.
 Context {E : Type}.
@@ -61,7 +132,7 @@ Proof.
   unfold ghr_set_rate_in_hz, set_rate_in_hz, lift_f, ret_f, fobj. py_unfold. cbn.
   destruct ((1 <=? r) && (r <=? 10)) eqn:Hr; cbn; [|reflexivity].
   rewrite !fld_set_setf. cbn.
-  rewrite Z.quot_div_nonneg by lia. reflexivity.
+  rewrite Z.quot_div_nonneg by lia. first [reflexivity | sets_eq].
 Qed.
 
 Theorem bridge_esfla_set fuel fs t x y z (w : W) :
@@ -72,7 +143,7 @@ Proof.
   destruct ((-1000 <=? x) && (x <=? 1000)); cbn; [|reflexivity].
   destruct ((-1000 <=? y) && (y <=? 1000)); cbn; [|reflexivity].
   destruct ((-1000 <=? z) && (z <=? 1000)); cbn; [|reflexivity].
-  rewrite !fld_set_setf. reflexivity.
+  rewrite !fld_set_setf. first [reflexivity | sets_eq].
 Qed.
 
 Definition dt_obj (year month day hour minute second : Z) : pyval :=
